@@ -635,6 +635,44 @@ def r20_14(run, model):
                    "no type information; dot completion after `p.` (p from util.gom) is empty")
 
 
+def cst_cast_agreement(run, model, rid):
+    run.rule(rid, "`can_cast` and `cast` of every CST enum wrapper name the same syntax kinds: code that filters nodes with can_cast (the hover's "
+                  "walk to the recorded expression, the lowering's test for an expression between items) and code that casts must agree on "
+                  "what an expression / pattern / type / item is")
+    NODES = "crates/cst/src/nodes.rs"
+    tree = model.tree(NODES)
+    n = 0
+    for it, _mod in model.all_items(NODES):
+        if it["k"] != "Impl" or (it.get("trait") or "").split("::")[-1] != "CstNode":
+            continue
+        fns = {f["name"]: f for f in it.get("items", []) if f.get("k") == "Fn"}
+        if "can_cast" not in fns or "cast" not in fns or fns["can_cast"].get("body") is None or fns["cast"].get("body") is None:
+            continue
+        cc = fns["can_cast"]["body"]
+        kinds_can = set()
+        for m_ in S.walk(cc):
+            if m_["k"] == "Macro" and m_["name"] == "matches":
+                kinds_can |= set(re.findall(r"\b[A-Z][A-Z0-9_]+\b", m_.get("tokens") or ""))
+        if not kinds_can:
+            continue      # a single-kind wrapper (`kind == K`), nothing to compare
+        kinds_cast = set()
+        for m_ in S.find(fns["cast"]["body"], "Match"):
+            for arm in m_["arms"]:
+                kinds_cast |= set(re.findall(r"\b[A-Z][A-Z0-9_]+\b", S.norm_ws(run.facts.text(NODES, arm["pat"]["sp"]))))
+        n += 1
+        ty = (it.get("self_ty") or it.get("ty") or "?")
+        only_cast, only_can = sorted(kinds_cast - kinds_can), sorted(kinds_can - kinds_cast)
+        run.ob(rid, f"{ty}|can_cast and cast accept the same kinds", not only_cast and not only_can, site(NODES, it["sp"]),
+               f"{len(kinds_can)} kinds in can_cast, {len(kinds_cast)} in cast; only in cast: {only_cast or 'none'}; only in can_cast: {only_can or 'none'}",
+               witness="int32_to_string(if s > 2 { 1 } else { 2 }): hover on `if` answers `string`, the type of the enclosing call (EXPR_IF is cast but "
+                       "not can_cast); an `if` between the items of a file is dropped without a diagnostic")
+    run.floor("CST enum wrappers with a kind list", n, 3)
+
+
+def r20_17(run, model):
+    cst_cast_agreement(run, model, "R20.17")
+
+
 def r20_16(run, model):
     run.rule("R20.16", "a hover finds the node the lowering recorded for the place: the lowering records the variable of a shorthand field "
                        "(`Point { x }` as a literal or a pattern) under the field node - the only node it has - so the walks from the token "
@@ -689,6 +727,7 @@ def run(run, model):
     # the byte scanning of the textual fallbacks must not index past the end of any text, the empty one included (shared with C04 R04.7)
     run.try_rule(r20_15, model)
     run.try_rule(r20_16, model)
+    run.try_rule(r20_17, model)
     from rules import c07
     run.rule("R20.7", "the occurs check looks into every component of every type former (shared with C07 R07.2, restricted to typer::unify): a "
                       "missed component lets a cyclic type through and the next query overflows the stack")
